@@ -635,6 +635,7 @@ pub fn run_check<P: Property>(tier: Tier) -> i32 {
             "evaluations": runs_done + regress_n,
             "distinct_nontrivial": distinct,
             "rule": meta.rule,
+            "additional_lanes": meta.lanes,
             "samples": samples,
             "nontrivial_runs": nontrivial,
             "distinct_measure": format!("set bits of a {}-bit bitmap indexed by the abstract-trace hash of each non-trivial run (a lower bound on distinct abstract traces)", nbits),
